@@ -105,6 +105,13 @@ def run_impl_parallel(prop, cases, hashseeds, per_case_timeout, jobs):
                     futs.append((h, ex.submit(run_impl, prop, ch, h, per_case_timeout)))
         for h, f in futs:
             out[h].update(f.result())
+    # a case that timed out while 16 workers (and whatever else the machine runs) competed for the cores is run again
+    # alone with five times the budget: only a hang that persists is reported (a loaded machine must not raise an alarm)
+    byid = {c["id"]: c for c in cases}
+    for h in hashseeds:
+        late = [byid[i] for i, r in out[h].items() if isinstance(r, dict) and r.get("exc") == "Timeout" and i in byid]
+        for c in late[:8]:
+            out[h].update(run_impl(prop, [c], h, per_case_timeout * 5))
     return out
 
 
